@@ -7,7 +7,7 @@ rmdir "$WT"
 git -C /repo worktree add -q "$WT" HEAD || exit 3
 PYTHONPATH="$WT" /venv/bin/python "$S/demo.py" >/tmp/seed_clean.out 2>&1; c=$?
 git -C "$WT" apply "$S/patch.diff" || { echo "PATCH DOES NOT APPLY"; git -C /repo worktree remove --force "$WT"; exit 3; }
-/tmp/tools/baseline.sh "$WT" > /tmp/seed_base.out 2>&1; b=$?
+"$(dirname "$0")/baseline.sh" "$WT" > /tmp/seed_base.out 2>&1; b=$?
 PYTHONPATH="$WT" /venv/bin/python "$S/demo.py" >/tmp/seed_mut.out 2>&1; m=$?
 git -C /repo worktree remove --force "$WT"
 echo "clean_demo_exit=$c baseline_exit=$b ($(head -1 /tmp/seed_base.out)) mutant_demo_exit=$m"
